@@ -1,0 +1,51 @@
+//go:build verif
+
+package jwkutil
+
+// Machine-checked contracts for the deductive checks in /verif (see
+// /verif/DESIGN.md). Comment-only; compiled solely under the "verif" build tag.
+
+// The allow-list tables, as established by the package initialiser (proved as
+// postconditions of init) and never written afterwards (frame obligations).
+//@ ginv tables:
+//@     len(ValidSigningAlgorithms) == 3 && ValidSigningAlgorithms[0] == "PS512" && ValidSigningAlgorithms[1] == "ES512" && ValidSigningAlgorithms[2] == "EdDSA" &&
+//@     ValidAlgsForKeyType != nil &&
+//@     (forall t jwa.KeyType :: {has(ValidAlgsForKeyType, t)} has(ValidAlgsForKeyType, t) <==> (t == "RSA" || t == "EC" || t == "OKP")) &&
+//@     len(ValidAlgsForKeyType["RSA"]) == 1 && ValidAlgsForKeyType["RSA"][0] == "PS512" &&
+//@     len(ValidAlgsForKeyType["EC"]) == 1 && ValidAlgsForKeyType["EC"][0] == "ES512" &&
+//@     len(ValidAlgsForKeyType["OKP"]) == 1 && ValidAlgsForKeyType["OKP"][0] == "EdDSA"
+//@ ginv errors: ErrKeyMissingAlg != nil && ErrUnsupportedKeyType != nil && ErrInvalidSigningAlgorithm != nil &&
+//@     ErrUnsupportedSigningAlgorithm != nil && ErrUnsupportedSigningAlgorithmForKeyType != nil &&
+//@     ErrNoSigningKeyID != nil && ErrNoFirstKey != nil && ErrCouldNotFindKeyByID != nil
+
+//@ define approved(key) := kValid(key) == nil && kHas(key, "alg") && typeis(kAlg(key), jwa.SignatureAlgorithm) &&
+//@     ((kKty(key) == "RSA" && unbox(kAlg(key), jwa.SignatureAlgorithm) == "PS512") ||
+//@      (kKty(key) == "EC" && unbox(kAlg(key), jwa.SignatureAlgorithm) == "ES512") ||
+//@      (kKty(key) == "OKP" && unbox(kAlg(key), jwa.SignatureAlgorithm) == "EdDSA"))
+
+//@ func Validate
+//@   requires key != nil
+//@   assigns nothing
+//@   ensures [allow] ret == nil <==> approved(key)
+
+//@ func fromIdOrOnlyKey
+//@   requires jwks != nil
+//@   assigns nothing
+//@   ensures [only]     keyID == "" && setLen(jwks) == 1 && setHasAt(jwks, 0) ==> ret2 == nil && ret0 == setKeyAt(jwks, 0) && ret1 == kID(setKeyAt(jwks, 0))
+//@   ensures [ambiguous] keyID == "" && setLen(jwks) != 1 ==> ret2 != nil && ret0 == nil
+//@   ensures [nofirst]  keyID == "" && setLen(jwks) == 1 && !setHasAt(jwks, 0) ==> ret2 != nil && ret0 == nil
+//@   ensures [byid]     keyID != "" && setFound(jwks, keyID) ==> ret2 == nil && ret0 == setLookup(jwks, keyID) && ret1 == keyID
+//@   ensures [absent]   keyID != "" && !setFound(jwks, keyID) ==> ret2 != nil && ret0 == nil
+//@   ensures [nonnil]   ret2 == nil ==> ret0 != nil
+
+// concat is executed in place where it is called with a literal number of
+// operands (the package initialiser): its loops have constant trip counts there.
+//@ func concat
+//@   inline
+//@   loop 0 unroll
+//@   loop 1 unroll
+
+//@ func LoadKey
+//@   assigns everything
+//@   ensures [validated] ret1 == nil ==> ret0 != nil && approved(ret0)
+//@   ensures [error] ret1 != nil ==> ret0 == nil
